@@ -327,7 +327,7 @@ exponent:
 		if p.ch != 0 {
 			return p.errorf("illegal trailing characters in number %q", p.src)
 		}
-		if len(p.buf) == 0 {
+		if len(p.buf) == 0 || string(p.buf) == "-" {
 			// A lone zero is skipped by the code above and only added
 			// back by ParseNum after scanNumber returns.
 			p.buf = append(p.buf, '0')
